@@ -403,12 +403,13 @@ func (s *c20Schema) atomTruth(a c20Atom, code int8) bool {
 	panic("op")
 }
 
-// a condition tree over <= 3 atoms.
-// Shape: 0 = a ; 1 = a o0 b ; 2 = (a o0 b) o1 c ; 3 = a o0 (b o1 c).  Ops[i]: true = AND, false = OR.
+// a condition tree over <= 4 atoms.
+// Shape: 0 = a ; 1 = a o0 b ; 2 = (a o0 b) o1 c ; 3 = a o0 (b o1 c) ; 4 = ((a o0 b) o1 c) o2 d ; 5 = (a o0 b) o1 (c o2 d).
+// And[i]: true = AND, false = OR.
 type c20Cond struct {
 	Atoms []int // indexes into the schema's atom list
 	Shape int
-	And   [2]bool
+	And   [3]bool
 }
 
 func c20OpName(and bool) string {
@@ -427,6 +428,10 @@ func (s *c20Schema) condText(atoms []c20Atom, c c20Cond) string {
 		return t(0) + " " + c20OpName(c.And[0]) + " " + t(1)
 	case 2:
 		return "(" + t(0) + " " + c20OpName(c.And[0]) + " " + t(1) + ") " + c20OpName(c.And[1]) + " " + t(2)
+	case 4:
+		return "((" + t(0) + " " + c20OpName(c.And[0]) + " " + t(1) + ") " + c20OpName(c.And[1]) + " " + t(2) + ") " + c20OpName(c.And[2]) + " " + t(3)
+	case 5:
+		return "(" + t(0) + " " + c20OpName(c.And[0]) + " " + t(1) + ") " + c20OpName(c.And[1]) + " (" + t(2) + " " + c20OpName(c.And[2]) + " " + t(3) + ")"
 	default:
 		return t(0) + " " + c20OpName(c.And[0]) + " (" + t(1) + " " + c20OpName(c.And[1]) + " " + t(2) + ")"
 	}
@@ -449,6 +454,11 @@ func (s *c20Schema) condExpr(atoms []c20Atom, c c20Cond) influxql.Expr {
 		return c20Bin(c.And[0], e(0), e(1))
 	case 2:
 		return c20Bin(c.And[1], &influxql.ParenExpr{Expr: c20Bin(c.And[0], e(0), e(1))}, e(2))
+	case 4:
+		in := &influxql.ParenExpr{Expr: c20Bin(c.And[0], e(0), e(1))}
+		return c20Bin(c.And[2], &influxql.ParenExpr{Expr: c20Bin(c.And[1], in, e(2))}, e(3))
+	case 5:
+		return c20Bin(c.And[1], &influxql.ParenExpr{Expr: c20Bin(c.And[0], e(0), e(1))}, &influxql.ParenExpr{Expr: c20Bin(c.And[2], e(2), e(3))})
 	default:
 		return c20Bin(c.And[0], e(0), &influxql.ParenExpr{Expr: c20Bin(c.And[1], e(1), e(2))})
 	}
@@ -468,6 +478,10 @@ func (c c20Cond) mask(am []uint16) uint16 {
 		return f(c.And[0], am[c.Atoms[0]], am[c.Atoms[1]])
 	case 2:
 		return f(c.And[1], f(c.And[0], am[c.Atoms[0]], am[c.Atoms[1]]), am[c.Atoms[2]])
+	case 4:
+		return f(c.And[2], f(c.And[1], f(c.And[0], am[c.Atoms[0]], am[c.Atoms[1]]), am[c.Atoms[2]]), am[c.Atoms[3]])
+	case 5:
+		return f(c.And[1], f(c.And[0], am[c.Atoms[0]], am[c.Atoms[1]]), f(c.And[2], am[c.Atoms[2]], am[c.Atoms[3]]))
 	default:
 		return f(c.And[0], am[c.Atoms[0]], f(c.And[1], am[c.Atoms[1]], am[c.Atoms[2]]))
 	}
@@ -553,7 +567,7 @@ type c20Case struct {
 type c20CondRef struct {
 	Atoms []c20Atom `json:"atoms"`
 	Shape int       `json:"shape"`
-	And   [2]bool   `json:"and"`
+	And   [3]bool   `json:"and"`
 }
 
 type c20Setting struct {
@@ -772,6 +786,30 @@ type c20Plan struct {
 	// over the FULL literal alphabet plus one atom of the reduced alphabet on another column (a window on the
 	// leading key combined with a second key column; settings/time ranges of 3-atom trees)
 	Wide3 int
+	// Deep: families aimed at the recursion of KeyConditionImpl.checkInAnyRange below its first level (>= 3 used key
+	// columns), run on records of <= Deep rows:
+	//   pairs   - for every two key columns a < b: every comparison atom on a x every comparison atom on b x {AND, OR}
+	//   triples - for every three key columns a < b < c: one atom per column (full comparison alphabet if DeepFull3,
+	//             else the reduced alphabet), shapes (a o b) o c and a o (b o c), all four operator pairs
+	//   quads   - for four key columns a < b < c < d (DeepQuad): one reduced-alphabet atom per column,
+	//             ((a o b) o c) o d and (a o b) o (c o d), all eight operator triples
+	// with their own time ranges and reader settings. Records of exactly Deep rows are only laid out with fragments
+	// of >= DeepMinFS rows (one MayBeInRange call sees two marks and the rows between them; with 3 rows and
+	// fragments of 2 or 3 rows every (left mark, row, right mark) triple of the schema is covered).
+	Deep         int
+	DeepFull3    bool
+	DeepQuad     bool
+	DeepMinFS    int
+	DeepTimes    []c20TimeRange
+	DeepSettings []c20Setting
+}
+
+// c20Class: the bounds shared by a family of condition trees of a plan.
+type c20Class struct {
+	maxRow int // largest record the trees are run on
+	minFS  int // records of exactly maxRow rows: only layouts whose largest fragment has >= minFS rows
+	times  []c20TimeRange
+	sets   []c20Setting
 }
 
 func c20Plans(thorough bool) []c20Plan {
@@ -787,6 +825,9 @@ func c20Plans(thorough bool) []c20Plan {
 	setAll := []c20Setting{{8, 0, false}, {2, 0, false}, {3, 0, false}, {8, 1, false}, {2, 2, false}, {8, 0, true}, {2, 0, true}, {3, 1, true}}
 	set2 := []c20Setting{{8, 0, false}, {2, 0, true}}
 	set1 := []c20Setting{{8, 0, false}}
+	setCoarse := []c20Setting{{8, 0, false}, {2, 0, false}}
+	setCoarse3 := []c20Setting{{8, 0, false}, {2, 0, false}, {3, 1, false}}
+	deepTimes := append(append([]c20TimeRange{}, times[1:2]...), times[3:]...) // all but "none" and [2,2] (= times2[:2])
 	nt := [3][]c20TimeRange{noTime, noTime, noTime}
 	var ps []c20Plan
 	if !thorough {
@@ -801,10 +842,22 @@ func c20Plans(thorough bool) []c20Plan {
 				Settings: [3][]c20Setting{setAll, set2, set1}},
 			c20Plan{Schema: mk("s,time", c20StrCol("s", false, false), c20TimeCol()), Rows: [3]int{5, 5, 0},
 				Times: [3][]c20TimeRange{times, times2, noTime}, Settings: [3][]c20Setting{setAll, set2, set1}},
+			// three used key columns (time is the third): besides the general 1- and 2-atom trees, the deep pairs
+			// `<atom on s> AND/OR <atom on i>` under the eight time ranges the general 2-atom trees do not use
 			c20Plan{Schema: mk("s,i,time", c20StrCol("s", false, false), c20IntCol("i", false, false), c20TimeCol()), Rows: [3]int{4, 3, 0},
-				Times: [3][]c20TimeRange{times, times2[:2], noTime}, Settings: [3][]c20Setting{setAll, set2, set1}},
+				Times: [3][]c20TimeRange{times, times2[:2], noTime}, Settings: [3][]c20Setting{setAll, set2, set1},
+				Deep: 3, DeepMinFS: 1, DeepTimes: deepTimes, DeepSettings: set2},
 			c20Plan{Schema: mk("sw,iw", c20StrCol("sw", false, false), c20IntGapCol("iw", false)), Rows: [3]int{3, 0, 0}, Times: nt,
 				Settings: [3][]c20Setting{set1, set1, set1}, Wide3: 3},
+			// three data key columns, tiny domains: every record of <= 4 rows, every layout, deep pairs and triples
+			c20Plan{Schema: mk("i,j,k", c20IntCol("i", false, false), c20IntCol("j", false, false), c20IntCol("k", false, false)),
+				Rows: [3]int{4, 0, 0}, Times: nt, Settings: [3][]c20Setting{setAll, set1, set1},
+				Deep: 4, DeepMinFS: 1, DeepTimes: noTime, DeepSettings: setCoarse},
+			// three data key columns with three-valued leading columns (a row can lie strictly between the marks in the
+			// first and in the second key; integer literals between the values): (left mark, row, right mark) triples
+			c20Plan{Schema: mk("sw,iw,k", c20StrCol("sw", false, false), c20IntGapCol("iw", false), c20IntCol("k", false, false)),
+				Rows: [3]int{3, 0, 0}, Times: nt, Settings: [3][]c20Setting{set2, set1, set1},
+				Deep: 3, DeepMinFS: 2, DeepTimes: noTime, DeepSettings: set1},
 		)
 		return ps
 	}
@@ -825,7 +878,8 @@ func c20Plans(thorough bool) []c20Plan {
 		c20Plan{Schema: mk("bn,s", c20BoolCol("bn", true), c20StrCol("s", false, false)), Rows: [3]int{4, 3, 0}, Times: nt, Settings: sMid},
 		c20Plan{Schema: mk("s,time", c20StrCol("s", false, true), c20TimeCol()), Rows: [3]int{6, 5, 3}, Times: at, Settings: sMid},
 		c20Plan{Schema: tc, Rows: [3]int{6, 5, 3}, Times: at, Settings: sMid},
-		c20Plan{Schema: mk("s,i,time", c20StrCol("s", false, false), c20IntCol("i", false, false), c20TimeCol()), Rows: [3]int{5, 4, 2}, Times: at, Settings: sMid},
+		c20Plan{Schema: mk("s,i,time", c20StrCol("s", false, false), c20IntCol("i", false, false), c20TimeCol()), Rows: [3]int{5, 4, 2}, Times: at, Settings: sMid,
+			Deep: 3, DeepMinFS: 1, DeepTimes: deepTimes[1:], DeepSettings: set2}, // deep pairs under the 7 time ranges not in times2
 		c20Plan{Schema: mk("sn,in,time", c20StrCol("sn", false, true), c20IntCol("in", false, true), c20TimeCol()), Rows: [3]int{4, 3, 0},
 			Times: [3][]c20TimeRange{times2, times2[:2], noTime}, Settings: sMid},
 		c20Plan{Schema: mk("i,s,time", c20IntCol("i", false, false), c20StrCol("s", false, false), c20TimeCol()), Rows: [3]int{4, 3, 0}, Times: at, Settings: sMid},
@@ -834,6 +888,31 @@ func c20Plans(thorough bool) []c20Plan {
 			Settings: [3][]c20Setting{set1, set1, set1}, Wide3: 4},
 		c20Plan{Schema: mk("iw,sw", c20IntGapCol("iw", false), c20StrCol("sw", false, false)), Rows: [3]int{4, 0, 0}, Times: nt,
 			Settings: [3][]c20Setting{set1, set1, set1}, Wide3: 4},
+		// ---- recursion depth >= 2 of checkInAnyRange (three and four used key columns), see c20Plan.Deep
+		// tiny domains: (a) records <= 3 rows, every layout, triples over the FULL comparison alphabet;
+		// (b) records <= 5 rows, every layout, three coarse-index settings, reduced triples
+		c20Plan{Schema: mk("i,j,k", c20IntCol("i", false, false), c20IntCol("j", false, false), c20IntCol("k", false, false)),
+			Rows: [3]int{5, 0, 0}, Times: nt, Settings: sMid,
+			Deep: 3, DeepMinFS: 1, DeepFull3: true, DeepTimes: noTime, DeepSettings: set2},
+		c20Plan{Schema: mk("i,j,k-long", c20IntCol("i", false, false), c20IntCol("j", false, false), c20IntCol("k", false, false)),
+			Rows: [3]int{0, 0, 0}, Times: nt, Settings: sMid,
+			Deep: 5, DeepMinFS: 1, DeepTimes: noTime, DeepSettings: setCoarse3},
+		// nulls in the first two of three key columns
+		c20Plan{Schema: mk("in,jn,k", c20IntCol("in", false, true), c20IntCol("jn", false, true), c20IntCol("k", false, false)),
+			Rows: [3]int{4, 0, 0}, Times: nt, Settings: sMid,
+			Deep: 4, DeepMinFS: 2, DeepTimes: noTime, DeepSettings: setCoarse},
+		// three-valued leading columns (rows strictly between the marks in the first and second key, literals between values)
+		c20Plan{Schema: mk("sw,iw,k", c20StrCol("sw", false, false), c20IntGapCol("iw", false), c20IntCol("k", false, false)),
+			Rows: [3]int{4, 0, 0}, Times: nt, Settings: sMid,
+			Deep: 4, DeepMinFS: 2, DeepTimes: noTime, DeepSettings: setCoarse},
+		// four key columns: pairs, triples and quads (one atom per column)
+		c20Plan{Schema: mk("i,j,k,l", c20IntCol("i", false, false), c20IntCol("j", false, false), c20IntCol("k", false, false), c20IntCol("l", false, false)),
+			Rows: [3]int{4, 0, 0}, Times: nt, Settings: sMid,
+			Deep: 3, DeepMinFS: 2, DeepQuad: true, DeepTimes: noTime, DeepSettings: set1},
+		// three data key columns + time = four used key columns
+		c20Plan{Schema: mk("s,i,j,time", c20StrCol("s", false, false), c20IntCol("i", false, false), c20IntCol("j", false, false), c20TimeCol()),
+			Rows: [3]int{3, 0, 0}, Times: at, Settings: sMid,
+			Deep: 3, DeepMinFS: 2, DeepTimes: []c20TimeRange{{}, {1, 1, true}, {2, 2, true}, {influxql.MinTime, 1, true}}, DeepSettings: set1},
 	)
 	return ps
 }
@@ -847,9 +926,10 @@ type c20PKRun struct {
 	s      *c20Schema
 	rep    *kit.Report
 	atoms  []c20Atom
-	conds  []c20Cond // ordered by number of atoms
-	nAtoms []int
-	maxRow []int // largest record a condition is run on
+	conds  []c20Cond // ordered by family
+	class   []uint8   // per condition: index into classes
+	classes []c20Class
+	nMax    int // largest record of the plan
 	kcs    map[[2]int]KeyCondition // (cond, time) -> key condition; nil = rejected by NewKeyCondition
 	vio    map[string]int
 	panicSeen map[string]bool
@@ -860,37 +940,48 @@ type c20PKRun struct {
 func c20NewPKRun(p *c20Plan, rep *kit.Report, wi *int) *c20PKRun {
 	r := &c20PKRun{p: p, s: &p.Schema, rep: rep, kcs: map[[2]int]KeyCondition{}, vio: map[string]int{}, wi: wi}
 	r.atoms = r.s.allAtoms(false)
-	add := func(c c20Cond) {
+	// classes 0..2: trees of 1..3 atoms of the general grammar; 3: the "wide" family; 4: the "deep" families
+	for k := 0; k < 3; k++ {
+		r.classes = append(r.classes, c20Class{maxRow: p.Rows[k], times: p.Times[k], sets: p.Settings[k]})
+	}
+	r.classes = append(r.classes, c20Class{maxRow: p.Wide3, times: p.Times[2], sets: p.Settings[2]},
+		c20Class{maxRow: p.Deep, minFS: p.DeepMinFS, times: p.DeepTimes, sets: p.DeepSettings})
+	for _, c := range r.classes {
+		if c.maxRow > r.nMax {
+			r.nMax = c.maxRow
+		}
+	}
+	add := func(class int, c c20Cond) {
 		r.conds = append(r.conds, c)
-		r.nAtoms = append(r.nAtoms, len(c.Atoms))
-		r.maxRow = append(r.maxRow, p.Rows[len(c.Atoms)-1])
+		r.class = append(r.class, uint8(class))
 	}
 	for a := range r.atoms {
-		add(c20Cond{Atoms: []int{a}})
+		add(0, c20Cond{Atoms: []int{a}})
 	}
 	if p.Rows[1] > 0 {
 		for a := range r.atoms {
 			for b := range r.atoms {
-				add(c20Cond{Atoms: []int{a, b}, Shape: 1, And: [2]bool{true}})
-				add(c20Cond{Atoms: []int{a, b}, Shape: 1, And: [2]bool{false}})
+				add(1, c20Cond{Atoms: []int{a, b}, Shape: 1, And: [3]bool{true}})
+				add(1, c20Cond{Atoms: []int{a, b}, Shape: 1, And: [3]bool{false}})
+			}
+		}
+	}
+	// indexes (into r.atoms) of the reduced alphabet
+	var red []int
+	for _, ra := range r.s.allAtoms(true) {
+		for i, a := range r.atoms {
+			if a == ra {
+				red = append(red, i)
 			}
 		}
 	}
 	if p.Rows[2] > 0 {
-		var red []int
-		for _, ra := range r.s.allAtoms(true) {
-			for i, a := range r.atoms {
-				if a == ra {
-					red = append(red, i)
-				}
-			}
-		}
 		for _, a := range red {
 			for _, b := range red {
 				for _, c := range red {
 					for shape := 2; shape <= 3; shape++ {
 						for o := 0; o < 4; o++ {
-							add(c20Cond{Atoms: []int{a, b, c}, Shape: shape, And: [2]bool{o&1 != 0, o&2 != 0}})
+							add(2, c20Cond{Atoms: []int{a, b, c}, Shape: shape, And: [3]bool{o&1 != 0, o&2 != 0}})
 						}
 					}
 				}
@@ -904,20 +995,79 @@ func c20NewPKRun(p *c20Plan, rep *kit.Report, wi *int) *c20PKRun {
 				lead = append(lead, i)
 			}
 		}
-		for _, ra := range r.s.allAtoms(true) {
-			for i, a := range r.atoms {
-				if a == ra && a.Col != 0 {
-					other = append(other, i)
-				}
+		for _, i := range red {
+			if r.atoms[i].Col != 0 {
+				other = append(other, i)
 			}
 		}
 		for _, a := range lead {
 			for _, b := range lead {
 				for _, c := range other {
 					for o := 0; o < 4; o++ {
-						add(c20Cond{Atoms: []int{a, b, c}, Shape: 2, And: [2]bool{o&1 != 0, o&2 != 0}})
-						add(c20Cond{Atoms: []int{c, a, b}, Shape: 3, And: [2]bool{o&1 != 0, o&2 != 0}})
-						r.maxRow[len(r.maxRow)-1], r.maxRow[len(r.maxRow)-2] = p.Wide3, p.Wide3
+						add(3, c20Cond{Atoms: []int{a, b, c}, Shape: 2, And: [3]bool{o&1 != 0, o&2 != 0}})
+						add(3, c20Cond{Atoms: []int{c, a, b}, Shape: 3, And: [3]bool{o&1 != 0, o&2 != 0}})
+					}
+				}
+			}
+		}
+	}
+	if p.Deep > 0 {
+		// per key column: the comparison atoms (full alphabet) and the reduced ones; the time column has no atoms
+		// (it is constrained by the time range)
+		nk := r.s.NKey
+		full, small := make([][]int, nk), make([][]int, nk)
+		for i, a := range r.atoms {
+			if a.Col < nk && a.Op != "MATCHPHRASE" && a.Op != "IN" {
+				full[a.Col] = append(full[a.Col], i)
+			}
+		}
+		for _, i := range red {
+			if c := r.atoms[i].Col; c < nk {
+				small[c] = append(small[c], i)
+			}
+		}
+		for ca := 0; ca < nk; ca++ {
+			for cb := ca + 1; cb < nk; cb++ {
+				for _, a := range full[ca] {
+					for _, b := range full[cb] {
+						add(4, c20Cond{Atoms: []int{a, b}, Shape: 1, And: [3]bool{true}})
+						add(4, c20Cond{Atoms: []int{a, b}, Shape: 1, And: [3]bool{false}})
+					}
+				}
+			}
+		}
+		tri := small
+		if p.DeepFull3 {
+			tri = full
+		}
+		for ca := 0; ca < nk; ca++ {
+			for cb := ca + 1; cb < nk; cb++ {
+				for cc := cb + 1; cc < nk; cc++ {
+					for _, a := range tri[ca] {
+						for _, b := range tri[cb] {
+							for _, c := range tri[cc] {
+								for shape := 2; shape <= 3; shape++ {
+									for o := 0; o < 4; o++ {
+										add(4, c20Cond{Atoms: []int{a, b, c}, Shape: shape, And: [3]bool{o&1 != 0, o&2 != 0}})
+									}
+								}
+							}
+						}
+					}
+				}
+			}
+		}
+		if p.DeepQuad && nk >= 4 {
+			for _, a := range small[0] {
+				for _, b := range small[1] {
+					for _, c := range small[2] {
+						for _, d := range small[3] {
+							for shape := 4; shape <= 5; shape++ {
+								for o := 0; o < 8; o++ {
+									add(4, c20Cond{Atoms: []int{a, b, c, d}, Shape: shape, And: [3]bool{o&1 != 0, o&2 != 0, o&4 != 0}})
+								}
+							}
+						}
 					}
 				}
 			}
@@ -1026,12 +1176,28 @@ func (r *c20PKRun) report(kind string, rows []c20Row, layout []int, ci int, tr c
 func (r *c20PKRun) run() {
 	s := r.s
 	tuples := s.tuples()
-	for n := 1; n <= r.p.Rows[0]; n++ {
+	for n := 1; n <= r.nMax; n++ {
 		var recs [][]c20Row
 		s.sortedRecords(tuples, n, func(rows []c20Row) { recs = append(recs, append([]c20Row(nil), rows...)) })
 		r.rep.Count("pk_records", int64(len(recs)))
 		for _, layout := range r.layouts(n) {
 			bounds := c20Bounds(layout, n)
+			maxFrag := 0
+			for j := 0; j+1 < len(bounds); j++ {
+				if bounds[j+1]-bounds[j] > maxFrag {
+					maxFrag = bounds[j+1] - bounds[j]
+				}
+			}
+			// does any condition family run on this (record size, layout)?
+			used := false
+			for _, cl := range r.classes {
+				if n <= cl.maxRow && !(n == cl.maxRow && maxFrag < cl.minFS) {
+					used = true
+				}
+			}
+			if !used {
+				continue
+			}
 			// group the records by the rows the index writer copies (fragment starts + last row)
 			idxRows := append(append([]int{0}, layout...))
 			groups := map[string][]int{}
@@ -1058,13 +1224,13 @@ func (r *c20PKRun) run() {
 				if r.rep.Expired() {
 					return
 				}
-				r.group(recs, groups[gk], layout, bounds, n)
+				r.group(recs, groups[gk], layout, bounds, n, maxFrag)
 			}
 		}
 	}
 }
 
-func (r *c20PKRun) group(recs [][]c20Row, members []int, layout, bounds []int, n int) {
+func (r *c20PKRun) group(recs [][]c20Row, members []int, layout, bounds []int, n, maxFrag int) {
 	s := r.s
 	pkRec, mark, err := s.buildPK(recs[members[0]], layout)
 	if err != nil {
@@ -1084,11 +1250,11 @@ func (r *c20PKRun) group(recs [][]c20Row, members []int, layout, bounds []int, n
 	}
 	var evals, nontrivial int64
 	for ci, c := range r.conds {
-		na := r.nAtoms[ci]
-		if n > r.maxRow[ci] {
+		cl := &r.classes[r.class[ci]]
+		if n > cl.maxRow || (n == cl.maxRow && maxFrag < cl.minFS) {
 			continue
 		}
-		times, sets := r.p.Times[na-1], r.p.Settings[na-1]
+		times, sets := cl.times, cl.sets
 		for ti, tr := range times {
 			kc := r.kc(ci, ti, tr)
 			if kc == nil {
@@ -1618,7 +1784,7 @@ type c20SkCase struct {
 	Layout []int       `json:"layout"`
 	Atoms  []c20SkAtom `json:"atoms"`
 	Shape  int         `json:"shape"`
-	And    [2]bool     `json:"and"`
+	And    [3]bool     `json:"and"`
 	Text   string      `json:"text"`
 }
 
@@ -1948,8 +2114,8 @@ func (p *c20SkPlan) conds() []c20SkCase {
 	if p.Rows[1] > 0 {
 		for _, a := range p.Atoms {
 			for _, b := range p.Atoms {
-				out = append(out, c20SkCase{Atoms: []c20SkAtom{a, b}, Shape: 1, And: [2]bool{true}},
-					c20SkCase{Atoms: []c20SkAtom{a, b}, Shape: 1, And: [2]bool{false}})
+				out = append(out, c20SkCase{Atoms: []c20SkAtom{a, b}, Shape: 1, And: [3]bool{true}},
+					c20SkCase{Atoms: []c20SkAtom{a, b}, Shape: 1, And: [3]bool{false}})
 			}
 		}
 	}
@@ -1959,7 +2125,7 @@ func (p *c20SkPlan) conds() []c20SkCase {
 				for _, c := range p.Atoms3 {
 					for shape := 2; shape <= 3; shape++ {
 						for o := 0; o < 4; o++ {
-							out = append(out, c20SkCase{Atoms: []c20SkAtom{a, b, c}, Shape: shape, And: [2]bool{o&1 != 0, o&2 != 0}})
+							out = append(out, c20SkCase{Atoms: []c20SkAtom{a, b, c}, Shape: shape, And: [3]bool{o&1 != 0, o&2 != 0}})
 						}
 					}
 				}
